@@ -15,7 +15,13 @@ META = {
         'and views it as the output array type, and every evaluation path '
         'delegates broadcasting to numpy (np.vectorize / np.broadcast) rather '
         'than a hand-written pairing; a failed numpy broadcast is reported as '
-        'BroadcastError; (fill) the two Excel-style reshapers both start from '
+        'BroadcastError; the core passed to the wrapper is referenced only '
+        'inside safe_eval (the wrapper never evaluates it, or hands it to a '
+        'helper, without the per-element checks) and every assignment to the '
+        'result is built on safe_eval; (memo) no memoisation - lru_cache or a '
+        'hand-written dict keyed by the raw element values - sits on a path '
+        'whose result depends on whether an element is a logical or a number; '
+        '(fill) the two Excel-style reshapers both start from '
         '_init_reshape, whose fill is the array\'s own default, Array\'s '
         'default is #N/A (FalseArray/TrueArray carry the IS... defaults), both '
         'copy the value into [:r, :c] where get_shape maps a size-1 axis to '
@@ -195,6 +201,23 @@ def rule_funnel(ctx):
                 continue
             if names & carriers or resvar in names:
                 continue
+            # an empty array that is then filled element by element through
+            # safe_eval (`res = np.empty(...); res[i] = safe_eval(...)`)
+            alloc = isinstance(a, ast.Call) and isinstance(
+                a.func, (ast.Name, ast.Attribute)) and \
+                ctx.cg.resolve_name_expr(w, a.func) in (
+                    ('ext', 'numpy.empty'), ('ext', 'numpy.full'),
+                    ('ext', 'numpy.zeros'), ('ext', 'numpy.empty_like'),
+                    ('ext', 'numpy.full_like'))
+            stores = [s_ for s_ in own_nodes(w) if isinstance(s_, ast.Assign)
+                      and any(isinstance(t, ast.Subscript) and isinstance(
+                          t.value, ast.Name) and t.value.id == resvar
+                          for t in s_.targets)]
+            if alloc and stores and all(
+                    {x.id for x in ast.walk(s_.value)
+                     if isinstance(x, ast.Name)} & (carriers | {resvar})
+                    for s_ in stores):
+                continue
             bad_def = bad_def or (n, a)
     if bad_def:
         n, a = bad_def
@@ -372,4 +395,7 @@ def rule_fill(ctx):
 
 
 def run(ctx):
-    return [rule_funnel(ctx), rule_fill(ctx)]
+    from .common import rule_memo
+    regs = [r for r in ctx.registry.all() if r.has('wrap_ufunc')]
+    return [rule_funnel(ctx), rule_fill(ctx),
+            rule_memo(ctx, 'C05', 'C05.memo', regs)]
